@@ -173,8 +173,8 @@ impl Out {
 /// A simulated world: a system under test + reference model + event policy.
 pub trait World: Sized {
     const NAME: &'static str;
-    type Config: Serialize + DeserializeOwned + Clone + std::fmt::Debug;
-    type Event: Serialize + DeserializeOwned + Clone + std::fmt::Debug;
+    type Config: Serialize + DeserializeOwned + Clone + std::fmt::Debug + Send + Sync;
+    type Event: Serialize + DeserializeOwned + Clone + std::fmt::Debug + Send + Sync;
 
     /// Swarm choices, drawn first.
     fn gen_config(rng: &mut Rng, prop: &str, tier: Tier, run: u64) -> Self::Config;
@@ -285,12 +285,35 @@ pub struct RunRecord<W: World> {
 
 /// Streaming sink used by the `genexec`/`exec` child modes so that the parent
 /// knows which event was in flight if the child dies.
-pub trait Sink {
+pub trait Sink: Send {
     fn config(&mut self, _json: &str) {}
     fn before_event(&mut self, _idx: usize, _json: &str) {}
 }
 pub struct NoSink;
 impl Sink for NoSink {}
+
+/// Every run executes in a thread of its own (the caller waits for it; nothing else runs), so
+/// that per-thread state the library keeps — a thread-local cache, pool or scratch buffer —
+/// starts empty in every run: a run is then a function of its seed and the code alone, in a
+/// worker that has executed thousands of runs before exactly as in the fresh process that
+/// replays it.
+fn in_run_thread<T: Send, F: FnOnce() -> Result<T, (String, String)> + Send>(f: F) -> Result<T, (String, String)> {
+    // SIGALRM (the RNG world's signal storm) must land in the run thread: the waiting thread
+    // blocks it, run threads inherit the mask and unblock it for the duration of a storm
+    static BLOCK_ALRM: std::sync::Once = std::sync::Once::new();
+    BLOCK_ALRM.call_once(|| unsafe {
+        let mut set: libc::sigset_t = std::mem::zeroed();
+        libc::sigemptyset(&mut set);
+        libc::sigaddset(&mut set, libc::SIGALRM);
+        libc::pthread_sigmask(libc::SIG_BLOCK, &set, std::ptr::null_mut());
+    });
+    std::thread::scope(|s| {
+        match std::thread::Builder::new().stack_size(16 << 20).spawn_scoped(s, f) {
+            Ok(h) => h.join().unwrap_or_else(|_| Err(("?".to_string(), "the run thread died".to_string()))),
+            Err(e) => Err(("?".to_string(), format!("harness: cannot start the run thread: {}", e))),
+        }
+    })
+}
 
 pub fn run_generated<W: World>(seed: u64, run: u64, prop: &str, tier: Tier, trace: bool, sink: &mut dyn Sink, stream: bool) -> RunRecord<W> {
     let mut rng = Rng::from_label(seed, &format!("{}/{}", W::NAME, prop), W::rng_index(prop, run));
@@ -300,21 +323,23 @@ pub fn run_generated<W: World>(seed: u64, run: u64, prop: &str, tier: Tier, trac
     }
     let mut out = Out::new(prop, trace);
     let mut events = Vec::new();
-    let r = guarded(|| {
-        let mut w = W::new(&cfg);
-        while let Some(ev) = w.next_event(&mut rng) {
+    let r = in_run_thread(|| {
+        guarded(|| {
+            let mut w = W::new(&cfg);
+            while let Some(ev) = w.next_event(&mut rng) {
+                out.step = events.len();
+                if stream {
+                    sink.before_event(events.len(), &serde_json::to_string(&ev).unwrap());
+                }
+                w.step(&ev, &mut out);
+                events.push(ev);
+                if events.len() >= MAX_EVENTS_PER_RUN {
+                    break;
+                }
+            }
             out.step = events.len();
-            if stream {
-                sink.before_event(events.len(), &serde_json::to_string(&ev).unwrap());
-            }
-            w.step(&ev, &mut out);
-            events.push(ev);
-            if events.len() >= MAX_EVENTS_PER_RUN {
-                break;
-            }
-        }
-        out.step = events.len();
-        w.finish(&mut out);
+            w.finish(&mut out);
+        })
     });
     if let Err((loc, msg)) = r {
         out.harness_error(format!("unguarded panic in world {} run {}: {} at {}", W::NAME, run, msg, loc));
@@ -325,17 +350,19 @@ pub fn run_generated<W: World>(seed: u64, run: u64, prop: &str, tier: Tier, trac
 pub fn run_replay<W: World>(cfg: &W::Config, events: &[W::Event], trace: bool, sink: &mut dyn Sink, stream: bool) -> Out {
     let prop = W::prop_of(cfg);
     let mut out = Out::new(&prop, trace);
-    let r = guarded(|| {
-        let mut w = W::new(cfg);
-        for (i, ev) in events.iter().enumerate() {
-            out.step = i;
-            if stream {
-                sink.before_event(i, "");
+    let r = in_run_thread(|| {
+        guarded(|| {
+            let mut w = W::new(cfg);
+            for (i, ev) in events.iter().enumerate() {
+                out.step = i;
+                if stream {
+                    sink.before_event(i, "");
+                }
+                w.step(ev, &mut out);
             }
-            w.step(ev, &mut out);
-        }
-        out.step = events.len();
-        w.finish(&mut out);
+            out.step = events.len();
+            w.finish(&mut out);
+        })
     });
     if let Err((loc, msg)) = r {
         out.harness_error(format!("unguarded panic in world {} replay: {} at {}", W::NAME, msg, loc));
